@@ -28,13 +28,15 @@ pub fn check_total(rep: &mut Report, input: &[u8], keep: bool) -> Option<String>
     let mut sink = LimitedSink::new(out_limit(boxed.len()), keep);
     mon::steps_reset(64 * boxed.len() as u64 + 4096);
     let sc = mon::AllocScope::begin();
+    let st = mon::StackScope::begin(crate::c02::STACK_BUDGET);
     let r = mon::guarded(|| write!(sink, "{}", minicbor::display(&boxed)));
+    rep.max("display/max stack depth below the call (bytes)", st.end() as f64);
     let al = sc.end();
     let steps = mon::steps_read();
     mon::steps_reset(0);
     match r {
         Err(p) => {
-            fail(rep, if p.is_step_limit() { "display|does-not-terminate" } else { "display|panic" }, format!("{} at {}", p.message, p.location), input);
+            fail(rep, if p.is_step_limit() { "display|does-not-terminate" } else if p.is_stack_limit() { "display|stack-depth" } else { "display|panic" }, format!("{} at {}", p.message, p.location), input);
             return None;
         }
         Ok(Err(_)) => {
